@@ -387,6 +387,85 @@ func c04(c *core.Ctx) {
 				}
 			}
 		}
+		// the in-process client stream's "closed" state means the END was observed (the channel's io.EOF, an error
+		// frame, or a terminal error parked in the peek slot) — never merely that a receive failed: a context error
+		// must not put the stream into the state whose later receives report a clean end
+		for _, nt := range streamTypes(p, "ClientStream", "RecvMsg") {
+			if pkgSuffixOf(nt) != "inprocgrpc" {
+				continue
+			}
+			tn := nt.Obj().Name()
+			kinds := frameKinds(p)
+			var fam []*ssa.Function
+			seenF := map[*ssa.Function]bool{}
+			for _, root := range []string{"RecvMsg", "Header"} {
+				for _, f := range methodFamily(p, nt, root) {
+					if !seenF[f] {
+						seenF[f] = true
+						fam = append(fam, f)
+					}
+				}
+			}
+			isEOF := func(v ssa.Value) bool { g, ok := core.GlobalLoad(v); return ok && g == "io.EOF" }
+			eofGuard := func(f core.Fact) bool { return f.Op == token.EQL && (isEOF(f.X) || isEOF(f.Y)) }
+			type stStore struct {
+				fn *ssa.Function
+				st *ssa.Store
+				k  int64
+			}
+			var stores []stStore
+			closedK, haveK := int64(0), false
+			for _, f := range fam {
+				core.Instrs(f, func(in ssa.Instruction) {
+					st, ok := in.(*ssa.Store)
+					if !ok {
+						return
+					}
+					base, _, isF := core.FieldOf(st.Addr)
+					k, isC := core.ConstInt(st.Val)
+					if !isF || !isC || core.NamedOf(base.Type()) != tn || core.NamedOf(st.Val.Type()) == "" {
+						return
+					}
+					stores = append(stores, stStore{f, st, k})
+					if core.GuardedBy(st, eofGuard) {
+						closedK, haveK = k, true
+					}
+				})
+			}
+			if !haveK {
+				continue
+			}
+			for _, ss := range stores {
+				if ss.k != closedK {
+					continue
+				}
+				n++
+				okEnd := core.GuardedBy(ss.st, eofGuard)
+				if !okEnd {
+					// inside the error-frame case
+					okEnd = core.GuardedBy(ss.st, func(f core.Fact) bool {
+						if f.Op != token.EQL {
+							return false
+						}
+						call, _, isCall := core.CallResult(f.X)
+						k, isC := core.ConstInt(f.Y)
+						ek, haveE := kinds["err"]
+						return isCall && isC && haveE && k == ek && core.InfoOf(&call.Call).Name == "kind"
+					})
+				}
+				if !okEnd {
+					// a terminal error is parked in the same block
+					for _, in := range ss.st.Block().Instrs {
+						if ps, isS := in.(*ssa.Store); isS && !core.IsNilConst(ps.Val) {
+							if pt, isP := ps.Val.Type().Underlying().(*types.Pointer); isP && core.NamedOf(pt.Elem()) == "frame" {
+								okEnd = true
+							}
+						}
+					}
+				}
+				c.Check(okEnd, core.FuncName(ss.fn)+":state=closed:end-observed", ss.st.Pos(), "the closed state is entered where the end was observed (io.EOF of the channel, an error frame, or a parked terminal error)", "the closed state is entered on an edge where the receive merely failed (e.g. the context ended while waiting): a later receive that trusts the closed state reports a clean end (bare io.EOF) instead of Canceled / DeadlineExceeded")
+			}
+		}
 		for _, fn := range clientFns {
 			for _, ef := range core.EdgeFactsOf(fn) {
 				f := ef.Fact
